@@ -83,7 +83,7 @@ def concrete_main(path):
     out = []
     for job in spec["jobs"]:
         c = cases[job["case"]]
-        P = ConcreteProvider(job.get("inputs"), job.get("seed", 0), record_values=job.get("values", False))
+        P = ConcreteProvider(job.get("inputs"), job.get("seed", 0), record_values=job.get("values", False), tight=job.get("tight", False))
         err = None
         try:
             import warnings
@@ -128,6 +128,7 @@ def work(job):
         mod = importlib.import_module(modname)
         g = _loaded(True)
         case = {c.name: c for c in mod.cases(tier)}[case_name]
+        known = load_known(mod.PROPERTY)
         funcs = set()
 
         def body():
@@ -144,6 +145,7 @@ def work(job):
         ex = Explorer(feas_timeout_ms=case.feas_timeout_ms)
         counter = 0
         n_bad = 0
+        n_expected = 0
         out["skipped"] = 0
         case_budget_s = float(os.environ.get("VERIF_CASE_BUDGET_S", "900" if tier == "quick" else "3600"))
         first = True
@@ -160,10 +162,17 @@ def work(job):
                     # the case already has undischarged obligations (or ran out of budget): do not burn solver time on the rest
                     out["skipped"] += 1
                     continue
-                rec = _decide(decide, ob, case, P, path, model_to_inputs)
+                expected_fail = match_known(known, case_name, ob.name) is not None
+                if expected_fail:
+                    n_expected += 1
+                    if n_expected > 3:
+                        # listed known finding: a few attempts are enough to feed the replay, do not spend more solver time
+                        out["obligations"].append({"name": ob.name, "deriv": ob.deriv, "status": "unknown", "route": "known-finding-not-attempted", "secs": 0.0, "nontrivial": False, "key": ob.name, "goal": "", "path": out["paths"] - 1})
+                        continue
+                rec = _decide(decide, ob, case, P, path, model_to_inputs, quick_only=expected_fail)
                 rec["path"] = out["paths"] - 1
                 out["obligations"].append(rec)
-                if rec["status"] != "proved":
+                if rec["status"] != "proved" and not expected_fail:
                     n_bad += 1
             first = False
         out["slow"] = sorted([(o["secs"], o["name"], o["route"]) for o in out["obligations"]], reverse=True)[:3]
@@ -184,12 +193,15 @@ def work(job):
     return out
 
 
-def _decide(decide, ob, case, P, path, model_to_inputs):
+def _decide(decide, ob, case, P, path, model_to_inputs, quick_only=False):
     t0 = time.time()
     rec = {"name": ob.name, "deriv": ob.deriv}
     cons = list(ob.cons)
     res = None
-    if ob.pc and not case.pc_first:
+    if quick_only:
+        # obligation listed in known_findings.json: expected to fail, give it one short attempt only
+        res = decide.prove(ob.goal, cons + list(ob.pc), timeout_s=2, old_timeout_s=2, eq=None, rules=None, try_old=False)
+    elif ob.pc and not case.pc_first:
         res = decide.prove(ob.goal, cons, timeout_s=case.timeout, old_timeout_s=case.old_timeout, eq=ob.eq, rules=ob.rules, try_old=case.try_old, cert_first=case.cert_first)
         if res.status != "proved":
             res = None
@@ -319,10 +331,16 @@ def main(modname, argv=None):
                 results.append(r)
                 if args.verbose:
                     print("  done %s#%d: %d obligations, %d paths, %.1fs%s" % (r["case"], r["shard"], len(r["obligations"]), r["paths"], r["secs"], " ERROR" if r["error"] else ""), r.get("slow"), flush=True)
-    return finish(mod, modname, prop, args, seed, cases, results, t0)
+    extra = []
+    if getattr(mod, "extra_checks", None) and not args.case:
+        try:
+            extra = mod.extra_checks(args.tier)
+        except Exception as e:  # noqa
+            extra = [{"name": "extra_checks", "status": "unknown", "route": "none", "secs": 0.0, "detail": "extra checks failed to run: %s" % e}]
+    return finish(mod, modname, prop, args, seed, cases, results, t0, extra)
 
 
-def finish(mod, modname, prop, args, seed, cases, results, t0):
+def finish(mod, modname, prop, args, seed, cases, results, t0, extra=()):
     known = load_known(prop)
     case_by_name = {c.name: c for c in cases}
     inconclusive = []
@@ -376,6 +394,19 @@ def finish(mod, modname, prop, args, seed, cases, results, t0):
                         samples.append({"case": r["case"], "obligation": rec["name"], "route": rec["route"], "goal": rec.get("sample", "")})
             else:
                 failing.append((r["case"], rec))
+    extra_violations = []
+    for rec in extra:
+        n_ob += 1
+        solver_s += rec.get("secs", 0.0)
+        routes[rec["route"]] = routes.get(rec["route"], 0) + 1
+        if rec["status"] == "proved":
+            n_proved += 1
+            nontrivial_keys.add(rec["name"])
+            samples.append({"case": "extra", "obligation": rec["name"], "route": rec["route"], "goal": rec.get("sample", "")})
+        elif rec["status"] == "violated":
+            extra_violations.append(rec)
+        else:
+            inconclusive.append("%s: %s" % (rec["name"], rec.get("detail", "not confirmed")))
     for c in cases:
         got = sum(len(r["obligations"]) for r in results if r["case"] == c.name)
         if got == 0 and c.expect_obligations and not any(c.name in s for s in inconclusive):
@@ -396,7 +427,7 @@ def finish(mod, modname, prop, args, seed, cases, results, t0):
         for rec in recs:
             for c in rec.get("candidates", []) or []:
                 cands.append((rec["name"], c))
-        cjobs = [{"case": cname, "inputs": c, "seed": 0} for _n, c in cands[:60]]
+        cjobs = [{"case": cname, "inputs": c, "seed": 0, "tight": True} for _n, c in cands[:60]]
         nsearch = case.search
         cjobs += [{"case": cname, "inputs": None, "seed": seed * 100000 + 7919 + i} for i in range(nsearch)]
         try:
@@ -409,7 +440,7 @@ def finish(mod, modname, prop, args, seed, cases, results, t0):
             for f in r["failures"]:
                 key = f["name"].split("[")[0]
                 if key not in reproduced:
-                    reproduced[key] = {"inputs": r["inputs"], "failure": f, "how": "solver-model" if job["inputs"] is not None else "seeded-search"}
+                    reproduced[key] = {"inputs": r["inputs"], "failure": f, "how": "solver-model" if job["inputs"] is not None else "seeded-search", "tight": bool(job.get("tight"))}
         if not reproduced:
             names = sorted({rec["name"] for rec in recs})[:8]
             sts = sorted({rec["status"] for rec in recs})
@@ -424,10 +455,21 @@ def finish(mod, modname, prop, args, seed, cases, results, t0):
             h = hashlib.sha1(json.dumps([cname, key, info["inputs"]], sort_keys=True).encode()).hexdigest()[:10]
             path = os.path.join(rep_dir, "%s-%s.json" % (re.sub(r"[^A-Za-z0-9_.+-]", "_", cname)[:60], h))
             with open(path, "w") as f:
-                json.dump({"property": prop, "module": modname, "tier": args.tier, "case": cname, "obligation": info["failure"]["name"], "message": info["failure"]["msg"], "inputs": info["inputs"], "found_by": info["how"], "replay": "bin/check %s --replay %s" % (prop, path)}, f, indent=1)
+                json.dump({"property": prop, "module": modname, "tier": args.tier, "case": cname, "obligation": info["failure"]["name"], "message": info["failure"]["msg"], "inputs": info["inputs"], "tight": info["tight"], "found_by": info["how"], "replay": "bin/check %s --replay %s" % (prop, path)}, f, indent=1)
             violations.append(path)
         # obligations that failed symbolically but whose names did not reproduce are still covered by the reproduced ones
 
+    for rec in extra_violations:
+        k = match_known(known, "extra", rec["name"])
+        if k is not None:
+            known_hits[k["what"]] = k
+            continue
+        os.makedirs(rep_dir, exist_ok=True)
+        h = hashlib.sha1(json.dumps(rec["replay"], sort_keys=True).encode()).hexdigest()[:10]
+        path = os.path.join(rep_dir, "%s-%s.json" % (re.sub(r"[^A-Za-z0-9_.+-]", "_", rec["name"])[:60], h))
+        with open(path, "w") as f:
+            json.dump(dict(rec["replay"], property=prop, module=modname, obligation=rec["name"], replay="bin/check %s --replay %s" % (prop, path)), f, indent=1)
+        violations.append(path)
     for cname, nsk in skipped_cases:
         if not violations and not any(cname in s for s in inconclusive):
             inconclusive.append("%s: %d obligation(s) skipped after earlier undischarged ones / budget" % (cname, nsk))
@@ -484,7 +526,11 @@ def finish(mod, modname, prop, args, seed, cases, results, t0):
 
 def replay_main(mod, modname, path, tier):
     spec = json.load(open(path))
-    res = run_concrete(modname, spec.get("tier", tier), [{"case": spec["case"], "inputs": spec["inputs"], "seed": 0}])
+    if spec.get("kind") and getattr(mod, "replay_extra", None):
+        bad, msg = mod.replay_extra(spec)
+        print(("REPRODUCED" if bad else "NOT REPRODUCED") + " property=%s %s %s" % (mod.PROPERTY, spec.get("obligation", ""), msg if bad else ""))
+        return EXIT_VIOLATION if bad else EXIT_OK
+    res = run_concrete(modname, spec.get("tier", tier), [{"case": spec["case"], "inputs": spec["inputs"], "seed": 0, "tight": spec.get("tight", False)}])
     fails = res[0]["failures"]
     if fails:
         print("REPRODUCED property=%s case=%s" % (mod.PROPERTY, spec["case"]))
